@@ -33,7 +33,7 @@ from .protomodel import SymList, Str
 TRM = 'vizier._src.pyvizier.shared.trial'
 BSC = 'vizier._src.pyvizier.shared.base_study_config'
 PCM = 'vizier._src.pyvizier.shared.parameter_config'
-CNV = 'vizier._src.pyvizier.converters.core'
+CNV = 'vizier.pyvizier.converters.core'
 
 TRUST = [
     'pyvizier data classes as modelled in pyvc/exptr_model.py: Trial.parameters is converted with ParameterDict(...) on every '
@@ -196,8 +196,43 @@ def init_heap(run):
     run.ghost['c20.clock'] = z3.IntVal(-1)
 
 
+class HeapArr:
+    """read access to one heap field: `H(run, f)[r]`.  Reads through a chain of stores are resolved syntactically when the
+    indices are references known to be pairwise distinct (concrete-spine runs) -- the result is the same z3 value, only simpler."""
+
+    def __init__(self, run, arr):
+        self.run, self.arr = run, arr
+
+    def __getitem__(self, r):
+        a = self.arr
+        known = getattr(self.run, 'distinct_refs', None)
+        while known is not None and z3.is_app(a) and a.decl().kind() == z3.Z3_OP_STORE:
+            idx = a.arg(1)
+            if idx.eq(r):
+                return a.arg(2)
+            if idx.get_id() in known and r.get_id() in known:
+                a = a.arg(0)
+                continue
+            break
+        return z3.Select(a, r)
+
+
 def H(run, f):
+    return HeapArr(run, run.ghost['H.' + f])
+
+
+def HA(run, f):
+    """the raw z3 array of a heap field."""
     return run.ghost['H.' + f]
+
+
+def know_distinct(run, *refs):
+    """register references that are pairwise distinct from each other and from all registered ones (already assumed in the path
+    condition: allocated vs. fresh) so that heap reads resolve syntactically."""
+    if getattr(run, 'distinct_refs', None) is None:
+        run.distinct_refs = set()
+    for r in refs:
+        run.distinct_refs.add(r.get_id())
 
 
 def Hset(run, f, ref, v):
@@ -245,6 +280,7 @@ K_MD = Kind('metricdict', MD, lambda t: DictV(MDI, t), _unwrap_dict(MDI))
 K_RAW = Kind('rawvalue', PVal, RawV, _unwrap_term(RawV))
 K_STR = Kind('str', Str, lambda t: t, lambda it, v: pm._lift(v, Str))
 K_FLOAT = Kind('float', xreal.XReal, lambda t: t, lambda it, v: xreal.lift(v))
+K_INT = Kind('int', z3.IntSort(), lambda t: t, lambda it, v: E.as_int(v) if z3.is_expr(E.as_int(v)) else z3.IntVal(E.as_int(v)))
 AbsS = z3.DeclareSort('AbsVal')
 K_ABS = Kind('abstract', AbsS, lambda t: Abs('elem'), lambda it, v: it.run.fresh('abselem', AbsS))
 
@@ -282,7 +318,10 @@ class VList(SymList):
         return self.kind.wrap(term)
 
     def get(self, i):
-        return self.kind.wrap(z3.Select(self.arr, i))
+        conc = getattr(self, 'conc', None)
+        if conc is not None and z3.is_int_value(i) and 0 <= i.as_long() < len(conc):
+            return conc[i.as_long()]
+        return self.kind.wrap(z3.simplify(z3.Select(self.arr, i)))
 
     def ensure(self, it, kind):
         """type a list that was havocked while still empty (element kind unknown until now)."""
@@ -308,9 +347,9 @@ def vlist_append(it, lst, v):
     if lst.kind is None:
         k = kind_of_value(v)
         if k is None:
-            raise Unsupported('append of %r to an untyped symbolic list' % (v,))
+            k = K_ABS        # a list of values the model does not track
         lst.ensure(it, k)
-    lst.arr = z3.Store(lst.arr, lst.n, lst.kind.unwrap(it, v))
+    lst.arr = z3.Store(lst.arr, lst.n, lst.kind.unwrap(it, v) if lst.kind is not K_ABS else it.run.fresh('abselem', AbsS))
     lst.n = lst.n + 1
     lst.pos = None
     lst.touch()
@@ -476,6 +515,7 @@ featmat1 = z3.Function('to_features_1', Conv, PD, Feat)        # to_features([t]
 featrow = z3.Function('to_features_row', Conv, PD, Feat)      # to_features(ts)[i]
 topar0 = z3.Function('to_parameters_0', Conv, Feat, PD)       # to_parameters(m)[0] for a (1, d) matrix
 toparrow = z3.Function('to_parameters_row', Conv, Feat, PD)   # to_parameters(m)[i] as a function of row i
+feat_item = z3.Function('ndarray_item', Feat, xreal.XReal)
 np_sub = z3.Function('np_sub', Feat, Feat, Feat)
 np_add = z3.Function('np_add', Feat, Feat, Feat)
 np_other = z3.Function('np_binop', z3.IntSort(), Feat, Feat, Feat)
@@ -629,7 +669,7 @@ def _value_getattr(it, v, a):
         return Abs('converter.' + a)
     if isinstance(v, FeatV):
         if a == 'item':
-            return _bi('item', lambda it_, args, kw: it_.run.fresh('featitem', xreal.XReal))
+            return _bi('item', lambda it_, args, kw: feat_item(v.term))
         return Abs('ndarray.' + a)
     if z3.is_expr(v) and v.sort() == Str and a == 'startswith':
         return _bi('startswith', lambda it_, args, kw: str_startswith(v, pm._lift(args[0], Str)))
@@ -841,6 +881,9 @@ def _compare(it, op, l, r):
         return c if isinstance(op, ast.Eq) else z3.Not(c)
     if any(isinstance(x, (Abs, RawV, FeatV)) for x in (l, r)):
         return fresh_bool(it, 'cmp')
+    if all(isinstance(x, Obj) and x.cls in ('SearchSpace', 'Metadata') for x in (l, r)) and isinstance(op, (ast.Eq, ast.NotEq)):
+        c = True if l is r else fresh_bool(it, 'space_eq')      # value equality of opaque contents
+        return c if isinstance(op, ast.Eq) else E.znot(c)
     return _prev_compare(it, op, l, r)
 
 
@@ -1123,6 +1166,8 @@ def _fresh_like(it, v, name):
         return MeasNew(SMap(name + '_metrics').ensure(it, MDI), run.fresh(name + '_rest', MRest))
     if isinstance(v, (ConverterV, FnV, FeatMat, E.FuncVal, E.Bound, Builtin, E.ModRef, E.ExtRef, E.ClassInfo)):
         return v
+    if isinstance(v, Obj) and v.cls in ('SearchSpace', 'Metadata'):
+        return v          # opaque content: nothing is tracked, nothing to havoc
     if isinstance(v, Obj) and not isinstance(v, ExcObj):
         return _path_havoc(it, v, name)
     return _prev_fresh_like(it, v, name)
@@ -1171,10 +1216,17 @@ def copy_trials(it, xs):
     return VList(xs.n, arr, K_TRIAL, pos)
 
 
+def _fresh_ref(run, r, allocfield):
+    """concrete-spine runs: a reference assumed unallocated is distinct from every registered (allocated) reference."""
+    if getattr(run, 'distinct_refs', None) is not None:
+        know_distinct(run, r)
+
+
 def copy_trial(it, t):
     run = it.run
     r = run.fresh('copy_t', TRef)
     run.assume(z3.Not(H(run, 'talloc')[r]))
+    _fresh_ref(run, r, 'talloc')
     for f in TRIAL_FIELDS:
         Hset(run, f, r, H(run, f)[t.term])
     Hset(run, 'talloc', r, z3.BoolVal(True))
@@ -1303,7 +1355,7 @@ def dict_comprehension(it, fr, e, xs):
     kt = pm._lift(kv, Str) if not isinstance(kv, RawV) else None
     if kt is None:
         return RawMap(run, xs, J, cond, kv, vv)
-    if isinstance(vv, (MetricV,)) or xreal.is_x(vv):
+    if isinstance(vv, (MetricV,)) or xreal.is_x(vv) or (isinstance(vv, float)):
         di = MDI
     elif isinstance(vv, (PValV, RawV)):
         di = PDI
@@ -1355,12 +1407,14 @@ class RawMap:
 M.comprehension = _comprehension
 
 ABS_LOOP = E.LoopSpec(lambda it, fr, ctx: [])
+HAVOC_ALL_LOOP = E.LoopSpec(lambda it, fr, ctx: [], ghost=ALL)
+HAVOC_TRIALS_LOOP = E.LoopSpec(lambda it, fr, ctx: [], ghost=tuple('H.' + f for f in TRIAL_FIELDS + ('talloc',)))
 _prev_symbolic_loop = E.Interp.symbolic_loop
 
 
 def _is_abstract_iter(v):
     if isinstance(v, VList):
-        return v.kind is K_ABS
+        return v.kind is K_ABS or getattr(v, 'is_range', False)
     if isinstance(v, ZipList):
         return any(_is_abstract_iter(p) for p in v.parts)
     if isinstance(v, EnumList):
@@ -1371,11 +1425,30 @@ def _is_abstract_iter(v):
 def _symbolic_loop(self, fr, s, it_):
     if isinstance(it_, Abs):
         it_ = abs_list(self)
+    if isinstance(it_, M.SymRange):
+        # range(lo, hi) with symbolic bounds: the list lo, lo+1, ..., hi-1
+        run = self.run
+        lo, hi = E.as_int(it_.lo), E.as_int(it_.hi)
+        if not (isinstance(it_.step, int) and it_.step == 1):
+            raise Unsupported('symbolic range with a step')
+        lo = lo if z3.is_expr(lo) else z3.IntVal(lo)
+        hi = hi if z3.is_expr(hi) else z3.IntVal(hi)
+        jj = z3.Int('j!rg')
+        arr = z3.Lambda([jj], lo + jj)
+        it_ = VList(z3.If(hi > lo, hi - lo, z3.IntVal(0)), arr, K_INT)
+        it_.is_range = True
     key = self.loop_key(fr, s)
     added = False
     if key not in E.LOOPS and _is_abstract_iter(it_):
         # a loop over opaque values: no invariant is needed for what the model tracks (its write set is havocked)
         E.LOOPS[key] = ABS_LOOP
+        added = True
+    elif key not in E.LOOPS and key[1].endswith('.__init__') and key[0].startswith('vizier._src.benchmarks.experimenters'):
+        # a loop inside a constructor: nothing is claimed about it -- the heap of trials and the loop's write set are havocked;
+        # the MetricInformation heap too if the body can reach one (problem statements, goals, names)
+        touches_mi = any(isinstance(n, ast.Attribute) and n.attr in ('problem_statement', 'goal', 'metric_information', 'flip_goal', 'item')
+                         for n in ast.walk(s))
+        E.LOOPS[key] = HAVOC_ALL_LOOP if touches_mi else HAVOC_TRIALS_LOOP
         added = True
     old = getattr(self, '_c20_loop', None)
     self._c20_loop = s
@@ -1435,13 +1508,18 @@ def conv_to_features(it, conv, arg):
     conc = getattr(xs, 'conc', None)
     if conc is not None and len(conc) == 1:
         return FeatV(featmat1(conv.term, H(run, 'params')[conc[0].term]))
-    return FeatMat(conv, xs, H(run, 'params'))
+    return FeatMat(conv, xs, HA(run, 'params'))
 
 
 def conv_to_parameters(it, conv, arg):
     run = it.run
     if isinstance(arg, FeatV):
         return ParamsOf(conv, arg.term)
+    if isinstance(arg, FeatMat) and getattr(arg.xs, 'conc', None) is not None:
+        items = [DictV(PDI, toparrow(conv.term, featrow(arg.conv.term, arg.params[t.term]))) for t in arg.xs.conc]
+        r = new_vlist(it, K_PD, items)
+        r.topar_of = (conv, arg)
+        return r
     if isinstance(arg, FeatMat):
         arr = run.fresh('topar_a', z3.ArraySort(z3.IntSort(), PD))
         j = z3.Int('j!tp')
@@ -1460,9 +1538,11 @@ def conv_convert(it, conv, arg):
     """DefaultModelInputConverter.convert(trials): one feature row per trial."""
     run = it.run
     xs = as_trial_list(it, arg)
+    if getattr(xs, 'conc', None) is not None:
+        return new_vlist(it, K_FEAT, [FeatV(featrow(conv.term, H(run, 'params')[t.term])) for t in xs.conc])
     arr = run.fresh('conv_a', z3.ArraySort(z3.IntSort(), Feat))
     j = z3.Int('j!cv')
-    P = H(run, 'params')
+    P = HA(run, 'params')
     run.axiom(z3.ForAll([j], z3.Implies(z3.And(j >= 0, j < xs.n), arr[j] == featrow(conv.term, P[xs.arr[j]]))))
     return VList(xs.n, arr, K_FEAT)
 
@@ -1587,6 +1667,7 @@ def _m_trial(it, args, kw):
     run = it.run
     r = run.fresh('newtrial', TRef)
     run.assume(z3.Not(H(run, 'talloc')[r]))
+    _fresh_ref(run, r, 'talloc')
     Hset(run, 'talloc', r, z3.BoolVal(True))
     p = args[0] if args else kw.get('parameters')
     Hset(run, 'params', r, (to_dictv(it, p, PDI).term if p is not None else PDI.empty()))
@@ -1614,6 +1695,7 @@ def _m_metric_information(it, args, kw):
     run = it.run
     r = run.fresh('newmi', MIRef)
     run.assume(z3.Not(H(run, 'mialloc')[r]))
+    _fresh_ref(run, r, 'mialloc')
     Hset(run, 'mialloc', r, z3.BoolVal(True))
     name = args[0] if args else kw.get('name', '')
     Hset(run, 'miname', r, pm._lift(name, Str))
@@ -1731,6 +1813,12 @@ def _obj_getattr(it, o, a):
                 return _bi('base.problem_statement', lambda it_, args, kw: base_problem_statement(it_, o))
             raise Unsupported('the wrapped experimenter is used through %s (only evaluate / problem_statement are in BaseContract)' % a)
         if o.cls == 'SearchSpace':
+            if a == 'assert_contains':
+                def assert_contains(it_, args, kw):
+                    if it_.run.choose(fresh_bool(it_, 'not_in_search_space')):
+                        raise PyRaise(it_.make_exc('ValueError', ['InvalidParameterError']))
+                    return True
+                return _bi('assert_contains', assert_contains)
             if a in ('add', 'select', 'select_root'):
                 return _bi(a, lambda it_, args, kw: Abs('search_space.' + a))
             return Abs('search_space.' + a)
@@ -1832,7 +1920,7 @@ def make_base(run, tag, bid):
     ps = Obj('ProblemStatement', {'search_space': new_search_space('base'), 'metric_information': MetricsConfigV(lst),
                                   'metadata': Obj('Metadata', {})})
     b = Obj('BaseExperimenter', {'tag': tag, 'bid': bid, '_ps': ps})
-    names0 = H(run, 'miname')
+    names0 = HA(run, 'miname')
     j, s = z3.Int('j!bn'), z3.Const('s!bn', Str)
     B = z3.IntVal(bid)
     # the metric names of the (constant) problem statement, as a predicate; names are unique (MetricsConfig invariant)
@@ -1899,6 +1987,18 @@ def base_evaluate(it, b, arg):
         rj = xs.arr[j]
         run.axiom(z3.ForAll([j, s], z3.Implies(z3.And(inr, z3.Not(post['infeas'][rj]), named(b, s)), MDI.dom(post['metrics'][rj])[s])))
         run.axiom(z3.ForAll([j], z3.Implies(inr, z3.Or(post['infeas'][rj], post['fmset'][rj]))))
+    sfx = getattr(run, 'metric_suffix_free', None)
+    if sfx is not None and conc is None:
+        # precondition of NoisyExperimenter (stated): no reported metric name is another reported name followed by the suffix
+        run.axiom(z3.ForAll([j, s], z3.Implies(z3.And(inr, MDI.dom(post['metrics'][rj])[s]),
+                                               z3.Not(MDI.dom(post['metrics'][rj])[str_concat(s, sfx)]))))
+    if getattr(run, 'base_never_infeasible', False):
+        # residual class of the recorded findings: the wrapped experimenter completes every trial feasibly
+        if conc is not None:
+            for t in conc:
+                run.assume(post['infeas'][t.term] == pre['infeas'][t.term])
+        else:
+            run.axiom(z3.ForAll([j], z3.Implies(inr, post['infeas'][rj] == pre['infeas'][rj])))
     mem = member_of(xs, r)
     for f in ('fmset', 'metrics', 'rest', 'infeas'):
         run.axiom(z3.ForAll([r], z3.Implies(z3.Not(mem), post[f][r] == pre[f][r])))
@@ -1979,3 +2079,439 @@ def _scalar_fp(x):
     if isinstance(x, (int, float, str, bool, type(None))):
         return ('py', repr(x))
     return ('obj', id(x))
+
+
+# ------------------------------------------------------------------------------------------ bounded model query support
+# Concrete-spine versions of the symbolic structures (batch of k trials, dicts with k symbolic keys): with them the
+# engine unrolls every loop, no quantifier is generated, and a `sat` answer yields a replayable input (DESIGN 2.5).
+def concrete_dict(di, items):
+    """dict value with the given [(key term, value term)] in this iteration order (keys assumed pairwise distinct)."""
+    dom, val = z3.K(Str, z3.BoolVal(False)), z3.K(Str, z3.Const('dflt_' + di.name, di.vsort))
+    keys, idx = z3.K(z3.IntSort(), pm.str_lit('')), z3.K(Str, z3.IntVal(-1))
+    for i, (k, v) in enumerate(items):
+        dom, val = z3.Store(dom, k, z3.BoolVal(True)), z3.Store(val, k, v)
+        keys, idx = z3.Store(keys, z3.IntVal(i), k), z3.Store(idx, k, z3.IntVal(i))
+    t = di.mk(dom, val, z3.IntVal(len(items)), keys, idx)
+    return t
+
+
+_prev_to_dictv = to_dictv
+
+
+def to_dictv(it, v, di):      # noqa: F811  (a concrete-spine dict keeps its spine)
+    if isinstance(v, M.PyDict) and v.items_:
+        items = [(pm._lift(k, Str), di.vunwrap(it, x)) for k, x in v.items()]
+        dv = DictV(di, concrete_dict(di, items))
+        dv.items_conc = items
+        return dv
+    return _prev_to_dictv(it, v, di)
+
+
+def bounded_batch(run, k, nparams, name='t'):
+    """k pairwise distinct allocated trials, each with `nparams` symbolic parameters (shared names)."""
+    refs = [z3.Const('%s%d' % (name, i), TRef) for i in range(k)]
+    if len(refs) > 1:
+        run.assume(z3.Distinct(*refs))
+    pnames = [z3.Const('pname%d' % i, Str) for i in range(nparams)]
+    if len(pnames) > 1:
+        run.assume(z3.Distinct(*pnames))
+    run.strings = getattr(run, 'strings', []) + pnames
+    arr, pos = z3.K(z3.IntSort(), z3.Const('dflt_trial', TRef)), z3.K(TRef, z3.IntVal(-1))
+    desc = []
+    for i, r in enumerate(refs):
+        arr, pos = z3.Store(arr, z3.IntVal(i), r), z3.Store(pos, r, z3.IntVal(i))
+        vals = [z3.Const('%s%d_p%d' % (name, i, q), PVal) for q in range(nparams)]
+        Hset(run, 'params', r, concrete_dict(PDI, list(zip(pnames, vals))))
+        Hset(run, 'talloc', r, z3.BoolVal(True))
+        fm, inf = z3.Bool('%s%d_had_fm' % (name, i)), z3.BoolVal(False)
+        Hset(run, 'fmset', r, z3.BoolVal(False))
+        Hset(run, 'infeas', r, inf)
+        desc.append({'ref': r, 'params': list(zip(pnames, vals))})
+    xs = VList(z3.IntVal(k), arr, K_TRIAL, pos)
+    xs.conc = [TrialV(r) for r in refs]
+    xs.desc = desc
+    spare = z3.Const('spare_trial', TRef)
+    run.assume(z3.And(*[spare != r for r in refs]) if refs else z3.BoolVal(True))
+    Hset(run, 'talloc', spare, z3.BoolVal(True))
+    run.spare_refs = [spare]
+    know_distinct(run, spare, *refs)
+    return xs
+
+
+def bounded_base(run, tag, bid, nmetrics, naux=1):
+    """wrapped experimenter with `nmetrics` named metrics; evaluate additionally reports `naux` auxiliary metrics."""
+    mrefs = [z3.Const('mi_%s_%d' % (tag, i), MIRef) for i in range(nmetrics)]
+    names = [z3.Const('mname_%s_%d' % (tag, i), Str) for i in range(nmetrics)]
+    aux = [z3.Const('aux_%s_%d' % (tag, i), Str) for i in range(naux)]
+    goals = [z3.Int('goal_%s_%d' % (tag, i)) for i in range(nmetrics)]
+    if len(mrefs) > 1:
+        run.assume(z3.Distinct(*mrefs))
+    if len(names + aux) > 1:
+        run.assume(z3.Distinct(*(names + aux)))
+    run.strings = getattr(run, 'strings', []) + names + aux
+    arr, pos = z3.K(z3.IntSort(), z3.Const('dflt_mi', MIRef)), z3.K(MIRef, z3.IntVal(-1))
+    for i, m in enumerate(mrefs):
+        arr, pos = z3.Store(arr, z3.IntVal(i), m), z3.Store(pos, m, z3.IntVal(i))
+        Hset(run, 'mialloc', m, z3.BoolVal(True))
+        Hset(run, 'miname', m, names[i])
+        Hset(run, 'goal', m, goals[i])
+        run.assume(z3.Or(goals[i] == 1, goals[i] == 2))
+    lst = VList(z3.IntVal(nmetrics), arr, K_MI, pos)
+    lst.conc = [MetricInfoV(m) for m in mrefs]
+    know_distinct(run, *mrefs)
+    ps = Obj('ProblemStatement', {'search_space': new_search_space('base'), 'metric_information': MetricsConfigV(lst),
+                                  'metadata': Obj('Metadata', {})})
+    b = Obj('BaseExperimenter', {'tag': tag, 'bid': bid, '_ps': ps})
+    b.names_conc, b.aux_conc, b.goals_conc, b.mrefs = names, aux, goals, mrefs
+    b.names0, b.lst0 = HA(run, 'miname'), lst
+    run.bases = getattr(run, 'bases', []) + [b]
+    return b
+
+
+_prev_named = named
+
+
+def named(b, s):      # noqa: F811
+    nc = getattr(b, 'names_conc', None)
+    if nc is not None:
+        return z3.Or(*[s == n for n in nc]) if nc else z3.BoolVal(False)
+    return _prev_named(b, s)
+
+
+_prev_base_evaluate = base_evaluate
+
+
+def base_evaluate(it, b, arg):      # noqa: F811
+    """bounded variant: the scripted experimenter reports, per trial, its named metrics plus auxiliary ones with symbolic values
+    (or marks the trial infeasible, with or without a measurement)."""
+    if getattr(b, 'names_conc', None) is None:
+        return _prev_base_evaluate(it, b, arg)
+    run = it.run
+    xs = as_trial_list(it, arg)
+    conc = getattr(xs, 'conc', None)
+    if conc is None:
+        raise Unsupported('bounded base experimenter given a symbolic batch')
+    pre = heap_snapshot(run)
+    call = {'base': b, 'xs': M.snapshot(xs), 'pre': pre, 'raised': False, 'script': []}
+    call['xs'].conc = conc
+    hook = getattr(run, 'on_base_evaluate', None)
+    if hook is not None:
+        hook(it, call)
+    ncall = len(getattr(run, 'base_calls', []))
+    for i, t in enumerate(conc):
+        r = t.term
+        tagn = '%s_c%d_t%d' % (b.attrs['tag'], ncall, i)
+        keys = b.names_conc + b.aux_conc
+        vals = [MetricS.mk(z3.Const('%s_v%d' % (tagn, q), xreal.XReal), z3.Bool('%s_hs%d' % (tagn, q)), z3.Const('%s_s%d' % (tagn, q), xreal.XReal))
+                for q in range(len(keys))]
+        inf, fm = z3.Bool(tagn + '_infeasible'), z3.Bool(tagn + '_has_fm')
+        run.assume(z3.Or(inf, fm))
+        for q in range(len(keys)):
+            # a std, when present, is a non-negative finite number (Metric validator)
+            run.assume(z3.Implies(MetricS.has_std(vals[q]), z3.And(xreal.is_fin(MetricS.std(vals[q])), xreal.r(MetricS.std(vals[q])) >= 0)))
+        Hset(run, 'metrics', r, concrete_dict(MDI, list(zip(keys, vals))))
+        Hset(run, 'fmset', r, fm)
+        Hset(run, 'infeas', r, z3.Or(pre['infeas'][r], inf))
+        Hset(run, 'rest', r, z3.Const(tagn + '_rest', MRest))
+        call['script'].append({'ref': r, 'keys': keys, 'vals': vals, 'infeasible': inf, 'has_fm': fm})
+    call['post'] = heap_snapshot(run)
+    run.base_calls = getattr(run, 'base_calls', []) + [call]
+    run.event('base.evaluate', b.attrs['tag'])
+    return None
+
+
+_prev_deepcopy3 = M.deepcopy
+
+
+def _deepcopy3(it, v, memo=None):
+    memo = memo if memo is not None else {}
+    if isinstance(v, VList) and getattr(v, 'conc', None) is not None and v.kind in (K_TRIAL, K_MI) and id(v) not in memo:
+        run = it.run
+        if v.kind is K_TRIAL:
+            items = [copy_trial(it, t) for t in v.conc]
+        else:
+            items = []
+            for m in v.conc:
+                r = run.fresh('micopy', MIRef)
+                run.assume(z3.Not(H(run, 'mialloc')[r]))
+                _fresh_ref(run, r, 'mialloc')
+                for f in ('goal', 'miname', 'mirest'):
+                    Hset(run, f, r, H(run, f)[m.term])
+                Hset(run, 'mialloc', r, z3.BoolVal(True))
+                items.append(MetricInfoV(r))
+        arr, pos = z3.K(z3.IntSort(), z3.Const('dflt_' + v.kind.name, v.kind.sort)), z3.K(v.kind.sort, z3.IntVal(-1))
+        for i, x in enumerate(items):
+            arr, pos = z3.Store(arr, z3.IntVal(i), x.term), z3.Store(pos, x.term, z3.IntVal(i))
+        r = VList(z3.IntVal(len(items)), arr, v.kind, pos)
+        r.conc = items
+        memo[id(v)] = r
+        return r
+    return _prev_deepcopy3(it, v, memo)
+
+
+M.deepcopy = _deepcopy3
+
+_prev_snapshot3 = M.snapshot
+
+
+def _snapshot3(v):
+    r = _prev_snapshot3(v)
+    if isinstance(v, VList) and getattr(v, 'conc', None) is not None and r is not v:
+        r.conc = list(v.conc)
+    return r
+
+
+M.snapshot = _snapshot3
+
+
+def model_str_names(model, terms):
+    """distinct readable names for the Str terms of a model (equal terms get the same name)."""
+    classes, out = [], {}
+    for t in terms:
+        v = model.eval(t, model_completion=True)
+        for cv, name in classes:
+            if cv.eq(v):
+                out[t.get_id()] = name
+                break
+        else:
+            name = 's%d' % len(classes)
+            classes.append((v, name))
+            out[t.get_id()] = name
+    return out, classes
+
+
+def model_pvals(model, terms, lo=0.15, step=0.07):
+    """distinct floats in (0, 1) for the PVal terms of a model (equal terms get the same float)."""
+    classes, out = [], {}
+    for t in terms:
+        v = model.eval(t, model_completion=True)
+        for cv, x in classes:
+            if cv.eq(v):
+                out[t.get_id()] = x
+                break
+        else:
+            x = round(lo + step * len(classes), 4)
+            classes.append((v, x))
+            out[t.get_id()] = x
+    return out
+
+
+# ------------------------------------------------------------------------------------------ tables of the wrappers
+# Any Dict[str, Dict[value, value]] is exactly characterised by three functions (has, dom, apply); any
+# Mapping[str, Sequence[value]] by (has, contains).  The wrappers' lookup tables are abstracted that way (fully general).
+perm_has = z3.Function('perm_has', z3.IntSort(), Str, z3.BoolSort())
+perm_dom = z3.Function('perm_dom', z3.IntSort(), Str, PVal, z3.BoolSort())
+perm_apply = z3.Function('perm_apply', z3.IntSort(), Str, PVal, PVal)
+disc_has = z3.Function('disc_has', z3.IntSort(), Str, z3.BoolSort())
+feas_contains = z3.Function('feas_contains', z3.IntSort(), Str, PVal, z3.BoolSort())
+
+
+class PermTable:
+    def __init__(self, tid):
+        self.tid = z3.IntVal(tid)
+
+
+class PermRow:
+    def __init__(self, table, name):
+        self.table, self.name = table, name
+
+
+class DiscTable:
+    def __init__(self, tid):
+        self.tid = z3.IntVal(tid)
+
+
+class FeasV:
+    def __init__(self, table, name):
+        self.table, self.name = table, name
+
+
+def _tables_subscript(it, base, idx):
+    if isinstance(base, PermTable):
+        k = pm._lift(idx, Str)
+        if not it.truth(perm_has(base.tid, k)):
+            raise PyRaise(it.make_exc('KeyError', [idx]))
+        return PermRow(base, k)
+    if isinstance(base, PermRow):
+        if not isinstance(idx, (RawV, PValV)):
+            raise Unsupported('permutation lookup of %r' % (idx,))
+        if not it.truth(perm_dom(base.table.tid, base.name, idx.term)):
+            raise PyRaise(it.make_exc('KeyError', [idx]))
+        return RawV(perm_apply(base.table.tid, base.name, idx.term))
+    if isinstance(base, DiscTable):
+        if isinstance(idx, Abs):
+            return Abs('feasible values')
+        k = pm._lift(idx, Str)
+        if not it.truth(disc_has(base.tid, k)):
+            raise PyRaise(it.make_exc('KeyError', [idx]))
+        return FeasV(base, k)
+    return M.MISSING
+
+
+def _tables_contains(it, container, x):
+    if isinstance(container, PermTable):
+        return fresh_bool(it, 'in') if isinstance(x, Abs) else perm_has(container.tid, pm._lift(x, Str))
+    if isinstance(container, DiscTable):
+        return fresh_bool(it, 'in') if isinstance(x, Abs) else disc_has(container.tid, pm._lift(x, Str))
+    if isinstance(container, FeasV):
+        if isinstance(x, (RawV, PValV)):
+            return feas_contains(container.table.tid, container.name, x.term)
+        return fresh_bool(it, 'in')
+    return M.MISSING
+
+
+def _tables_getattr(it, v, a):
+    if isinstance(v, (DiscTable, PermTable)) and a in ('keys', 'items', 'values'):
+        return _bi(a, lambda it_, args, kw: Abs('table.' + a))
+    return M.MISSING
+
+
+_chain('subscript_hook', _tables_subscript)
+_chain('contains_hook', _tables_contains)
+_chain('value_getattr_hook', _tables_getattr)
+
+_prev_truth4 = M.truth_hook
+
+
+def _truth4(it, v):
+    if isinstance(v, (PermTable, PermRow, DiscTable, FeasV, MetricsConfigV)):
+        return True
+    return _prev_truth4(it, v)
+
+
+M.truth_hook = _truth4
+
+_prev_fresh_like4 = M.fresh_like
+
+
+def _fresh_like4(it, v, name):
+    if isinstance(v, (PermTable, PermRow, DiscTable, FeasV, MetricsConfigV)):
+        return v
+    return _prev_fresh_like4(it, v, name)
+
+
+M.fresh_like = _fresh_like4
+
+_prev_dict_comprehension = dict_comprehension
+
+
+def dict_comprehension(it, fr, e, xs):      # noqa: F811
+    """comprehensions whose keys are opaque values give an opaque dict."""
+    gen = e.generators[0]
+    probe = xs.get(z3.Int('probe!dc'))
+    flat = probe if isinstance(probe, tuple) else (probe,)
+    if any(isinstance(x, Abs) for x in flat):
+        return Abs('dict of opaque values')
+    return _prev_dict_comprehension(it, fr, e, xs)
+
+
+# ------------------------------------------------------------------------------------------ small language additions
+class SuperV:
+    def __init__(self, cls):
+        self.cls = cls
+
+
+def _b_super(it, args, kw):
+    fv = it.stack[-1] if it.stack else None
+    if fv is None or fv.cls is None or args:
+        raise Unsupported('super() outside a method / with arguments')
+    return SuperV(fv.cls)
+
+
+M.BUILTINS['super'] = Builtin('super', _b_super)
+
+
+def _super_getattr(it, v, a):
+    if isinstance(v, SuperV):
+        for c in E.mro(v.cls)[1:]:
+            if isinstance(c, E.ClassInfo) and a in c.methods:
+                raise Unsupported('super().%s resolves to %s.%s (a base class with behaviour)' % (a, c.qualname, a))
+        if a in ('__init__', '__init_subclass__', '__post_init__'):
+            return _bi('object.' + a, lambda it_, args, kw: None)
+        raise Unsupported('super().%s' % a)
+    return M.MISSING
+
+
+_chain('value_getattr_hook', _super_getattr)
+
+_prev_assign = E.Interp.assign
+
+
+def _assign(self, fr, t, v):
+    if isinstance(t, (ast.Tuple, ast.List)) and isinstance(v, Abs):
+        for x in t.elts:
+            _assign(self, fr, x.value if isinstance(x, ast.Starred) else x, Abs(v.what + '[]'))
+        return
+    return _prev_assign(self, fr, t, v)
+
+
+E.Interp.assign = _assign
+
+_prev_smap_set = SMap.set
+
+
+def _smap_set(self, it, k, v):
+    if isinstance(k, Abs):
+        # a write under an unknown key: the whole dict is unknown afterwards
+        run = it.run
+        if self.di is not None:
+            self.dom = run.fresh(self.name + '_dom', z3.ArraySort(Str, z3.BoolSort()))
+            self.val = run.fresh(self.name + '_val', z3.ArraySort(Str, self.di.vsort))
+            self.src = run.fresh(self.name + '_src', z3.ArraySort(Str, z3.IntSort()))
+        return
+    return _prev_smap_set(self, it, k, v)
+
+
+SMap.set = _smap_set
+
+
+# ------------------------------------------------------------------------------------------ normalisation tables
+# Dict[str, float]: characterised by (has, value).
+norm_has = z3.Function('norm_has', z3.IntSort(), Str, z3.BoolSort())
+norm_val = z3.Function('norm_value', z3.IntSort(), Str, xreal.XReal)
+
+
+class NormTable:
+    def __init__(self, tid, role):
+        self.tid, self.role = z3.IntVal(tid), role
+
+
+def _norm_subscript(it, base, idx):
+    if isinstance(base, NormTable):
+        k = pm._lift(idx, Str)
+        if not it.truth(norm_has(base.tid, k)):
+            raise PyRaise(it.make_exc('KeyError', [idx]))
+        return norm_val(base.tid, k)
+    return M.MISSING
+
+
+def _norm_contains(it, container, x):
+    if isinstance(container, NormTable):
+        return norm_has(container.tid, pm._lift(x, Str))
+    return M.MISSING
+
+
+_chain('subscript_hook', _norm_subscript)
+_chain('contains_hook', _norm_contains)
+
+_prev_truth5 = M.truth_hook
+
+
+def _truth5(it, v):
+    if isinstance(v, NormTable):
+        return True
+    return _prev_truth5(it, v)
+
+
+M.truth_hook = _truth5
+
+_prev_fresh_like5 = M.fresh_like
+
+
+def _fresh_like5(it, v, name):
+    if isinstance(v, NormTable):
+        return v
+    return _prev_fresh_like5(it, v, name)
+
+
+M.fresh_like = _fresh_like5
